@@ -361,40 +361,80 @@ Proof.
   - intros [H1 [j [Hj Hr]]]. split; [exact H1|]. rewrite Hj, Hr. apply String.eqb_refl.
 Qed.
 
-Lemma results_ok_spec g ar a v :
-  results_ok g ar a v = true <->
-  (exists x, PRef a "result" x) /\ forall x, PRef a "result" x -> exists e, Entity g x e /\ ValOk g ar e x v.
+Lemma carries_spec g ar x v : carries g ar x v = true <-> Carries g ar x v.
 Proof.
-  unfold results_ok.
-  assert (Hall : forall rs, forallb (fun x => existsb (fun e => id_is e x &&& val_ok g ar e x v) g) rs = true <->
-                 forall x, In x rs -> exists e, Entity g x e /\ ValOk g ar e x v).
-  { intro rs. rewrite forallb_forall. split; intros H x Hx; specialize (H x Hx).
-    - apply existsb_exists in H. destruct H as [e [Hin He]]. fold_bool. apply andb_true_iff in He. destruct He as [Hi Hv].
-      exists e. split; [split; [exact Hin|apply id_is_spec; exact Hi]|apply val_ok_spec; exact Hv].
-    - destruct H as [e [[Hin Hi] Hv]]. apply existsb_exists. exists e. split; [exact Hin|]. fold_bool. apply andb_true_iff.
-      split; [apply id_is_spec; exact Hi|apply val_ok_spec; exact Hv]. }
+  unfold carries, Carries. rewrite existsb_exists. split.
+  - intros [e [Hin He]]. fold_bool. apply andb_true_iff in He. destruct He as [Hi Hv].
+    exists e. split; [split; [exact Hin|apply id_is_spec; exact Hi]|apply val_ok_spec; exact Hv].
+  - intros [e [[Hin Hi] Hv]]. exists e. split; [exact Hin|]. fold_bool. apply andb_true_iff.
+    split; [apply id_is_spec; exact Hi|apply val_ok_spec; exact Hv].
+Qed.
+
+Lemma results_all_spec g ar a v :
+  match prop_refs a "result" with [] => false | rs => forallb (fun x => carries g ar x v) rs end = true <->
+  (exists x, PRef a "result" x) /\ forall x, PRef a "result" x -> Carries g ar x v.
+Proof.
   destruct (prop_refs a "result") as [|r rs] eqn:E.
   - split; [discriminate|]. intros [[x Hx] _]. apply prop_refs_spec in Hx. rewrite E in Hx. destruct Hx.
-  - rewrite Hall. split.
+  - rewrite forallb_forall. split.
     + intro H. split; [exists r; apply prop_refs_spec; rewrite E; left; reflexivity|].
-      intros x Hx. apply H. rewrite <- E. apply prop_refs_spec. exact Hx.
-    + intros [_ H] x Hx. apply H. apply prop_refs_spec. rewrite E. exact Hx.
+      intros x Hx. apply carries_spec. apply H. rewrite <- E. apply prop_refs_spec. exact Hx.
+    + intros [_ H] x Hx. apply carries_spec. apply H. apply prop_refs_spec. rewrite E. exact Hx.
+Qed.
+
+Lemma job_ok_spec g ar a j : job_ok g ar a j = true <-> JobOk g ar a j.
+Proof.
+  unfold job_ok, JobOk. fold_bool. rewrite !andb_true_iff, forallb_forall.
+  assert (H1 : (forall v, In v (j_ins j) -> existsb (fun x => carries g ar x v) (prop_refs a "object") = true) <->
+               (forall v, In v (j_ins j) -> exists x, PRef a "object" x /\ Carries g ar x v)).
+  { split; intros H v Hv; specialize (H v Hv).
+    - apply existsb_exists in H. destruct H as [x [Hx Hc]]. exists x. split; [apply prop_refs_spec; exact Hx|apply carries_spec; exact Hc].
+    - destruct H as [x [Hx Hc]]. apply existsb_exists. exists x. split; [apply prop_refs_spec; exact Hx|apply carries_spec; exact Hc]. }
+  assert (H2 : (if j_closed j then forallb (fun x => existsb (fun v => carries g ar x v) (j_ins j)) (prop_refs a "object") else true) = true <->
+               (j_closed j = true -> forall x, PRef a "object" x -> exists v, In v (j_ins j) /\ Carries g ar x v)).
+  { destruct (j_closed j).
+    - rewrite forallb_forall. split.
+      + intros H _ x Hx. apply prop_refs_spec in Hx. specialize (H x Hx). apply existsb_exists in H.
+        destruct H as [v [Hv Hc]]. exists v. split; [exact Hv|apply carries_spec; exact Hc].
+      + intros H x Hx. apply prop_refs_spec in Hx. destruct (H eq_refl x Hx) as [v [Hv Hc]].
+        apply existsb_exists. exists v. split; [exact Hv|apply carries_spec; exact Hc].
+    - split; [intros _ Hf; discriminate|reflexivity]. }
+  assert (H3 : match j_out j with
+               | None => true
+               | Some v => match prop_refs a "result" with [] => false | rs => forallb (fun x => carries g ar x v) rs end
+               end = true <->
+               (forall v, j_out j = Some v -> (exists x, PRef a "result" x) /\ forall x, PRef a "result" x -> Carries g ar x v)).
+  { destruct (j_out j) as [v|].
+    - rewrite results_all_spec. split; [intros H v' Hv'; inversion Hv'; subst; exact H|intro H; apply H; reflexivity].
+    - split; [intros _ v Hv; discriminate|reflexivity]. }
+  rewrite H1, H2, H3. tauto.
+Qed.
+
+Lemma step_action_spec g s a : In a (step_actions g s) <-> StepAction g s a.
+Proof.
+  unfold step_actions, StepAction. rewrite filter_In. unfold is_step_action. split.
+  - intros [Hin H]. split; [exact Hin|]. destruct (ent_id a) as [i|]; [|discriminate].
+    apply existsb_exists in H. destruct H as [c [Hc H]]. fold_bool. apply andb_true_iff in H. destruct H as [Hctl Hi].
+    exists i, c. split; [reflexivity|]. split; [exact Hc|].
+    split; [apply is_control_spec; exact Hctl|apply prop_refs_spec; apply str_in_spec; exact Hi].
+  - intros [Hin (i & c & Hid & Hc & Hctl & Hi)]. split; [exact Hin|]. rewrite Hid.
+    apply existsb_exists. exists c. split; [exact Hc|]. fold_bool. apply andb_true_iff.
+    split; [apply is_control_spec; exact Hctl|apply str_in_spec; apply prop_refs_spec; exact Hi].
 Qed.
 
 Lemma sv_ok_spec g ar v : sv_ok g ar v = true <-> StepOk g ar v.
 Proof.
-  unfold sv_ok, StepOk. fold_bool. rewrite andb_true_iff, existsb_exists, forallb_forall. split.
-  - intros [[c [Hc Hctl]] Hall]. split; [exists c; split; [exact Hc|apply is_control_spec; exact Hctl]|].
-    intros c' aid a Hc' Hctl' Haid [Ha Hai]. specialize (Hall c' Hc'). apply is_control_spec in Hctl'. rewrite Hctl' in Hall.
-    rewrite forallb_forall in Hall. apply prop_refs_spec in Haid. specialize (Hall aid Haid).
-    rewrite forallb_forall in Hall. specialize (Hall a Ha). apply id_is_spec in Hai. rewrite Hai in Hall.
-    apply results_ok_spec. exact Hall.
-  - intros [[c [Hc Hctl]] Hall]. split; [exists c; split; [exact Hc|apply is_control_spec; exact Hctl]|].
-    intros c' Hc'. destruct (is_control c' (sv_step v)) eqn:Ectl; [|reflexivity].
-    rewrite forallb_forall. intros aid Haid. rewrite forallb_forall. intros a Ha.
-    destruct (id_is a aid) eqn:Eid; [|reflexivity]. apply results_ok_spec.
-    apply (Hall c' aid a Hc'); [apply is_control_spec; exact Ectl|apply prop_refs_spec; exact Haid|
-                                split; [exact Ha|apply id_is_spec; exact Eid]].
+  unfold sv_ok, StepOk. fold_bool. rewrite andb_true_iff, !forallb_forall. split.
+  - intros [Ha Hj]. split.
+    + intros a Hsa. apply step_action_spec in Hsa. specialize (Ha a Hsa). apply existsb_exists in Ha.
+      destruct Ha as [j [Hin Hok]]. exists j. split; [exact Hin|apply job_ok_spec; exact Hok].
+    + intros j Hin. specialize (Hj j Hin). apply existsb_exists in Hj. destruct Hj as [a [Hsa Hok]].
+      exists a. split; [apply step_action_spec; exact Hsa|apply job_ok_spec; exact Hok].
+  - intros [Ha Hj]. split.
+    + intros a Hsa. apply step_action_spec in Hsa. destruct (Ha a Hsa) as [j [Hin Hok]].
+      apply existsb_exists. exists j. split; [exact Hin|apply job_ok_spec; exact Hok].
+    + intros j Hin. destruct (Hj j Hin) as [a [Hsa Hok]]. apply existsb_exists. exists a.
+      split; [apply step_action_spec; exact Hsa|apply job_ok_spec; exact Hok].
 Qed.
 
 (* ---------------------------------------------------------------- the checker decides the predicate *)
@@ -481,11 +521,18 @@ Proof.
   exists x, fe. auto.
 Qed.
 
-(* whatever an action of a step lists as result carries the value that step produced *)
+(* every action orchestrated for a step is the record of one of that step's jobs: what it lists as result carries
+   what that job produced *)
 Lemma wf_step_results g ar vs ss : wf_crate g ar vs ss ->
-  forall v c aid a x, In v ss -> In c g -> IsControl c (sv_step v) -> PRef c "object" aid -> Entity g aid a ->
-    PRef a "result" x -> exists e, Entity g x e /\ ValOk g ar e x (sv_val v).
+  forall v a, In v ss -> StepAction g (sv_step v) a ->
+    exists j, In j (sv_jobs v) /\ JobOk g ar a j.
 Proof.
-  intros Hwf v c aid a x Hv Hc Hctl Hobj Ha Hx.
-  destruct (wf_steps _ _ _ _ Hwf v Hv) as [_ Hall]. destruct (Hall c aid a Hc Hctl Hobj Ha) as [_ H]. apply H. exact Hx.
+  intros Hwf v a Hv Ha. destruct (wf_steps _ _ _ _ Hwf v Hv) as [H _]. apply H. exact Ha.
+Qed.
+
+(* every job of a step has its record *)
+Lemma wf_step_jobs g ar vs ss : wf_crate g ar vs ss ->
+  forall v j, In v ss -> In j (sv_jobs v) -> exists a, StepAction g (sv_step v) a /\ JobOk g ar a j.
+Proof.
+  intros Hwf v j Hv Hj. destruct (wf_steps _ _ _ _ Hwf v Hv) as [_ H]. apply H. exact Hj.
 Qed.
